@@ -12,5 +12,5 @@ def extend(table):
     for p in ("C08", "C09", "C10"):
         table[p] = table[p] + [wide.run_plans]
     table["C16"] = [fsm.prop_c16]
-    table["C17"] = [fsm.prop_c17]
+    table["C17"] = [fsm.prop_c17, wide.run_plans]
     table["C18"] = [fsm.prop_c18]
